@@ -24,8 +24,14 @@ def layout(F, name):
 def signature_groups(builder, VE, regions):
     """group regions by the truth values of all version guards met in the summaries: within a group every class has
     the same schema"""
-    keys = [k for k, node in builder.registry.items()
-            if VE.is_version_expr(node[1] if isinstance(node, tuple) else node)]
+    import versions as _v
+    oldv = _v.VERSION_LOCALS
+    _v.VERSION_LOCALS = builder.vlocals
+    try:
+        keys = [k for k, node in builder.registry.items()
+                if VE.is_version_expr(node[1] if isinstance(node, tuple) else node)]
+    finally:
+        _v.VERSION_LOCALS = oldv
     groups = {}
     for r in regions:
         rv = schema.RegionView(builder, VE, r)
@@ -174,7 +180,8 @@ def run(F, chk):
                 ec, er = ev[(cls, d, "c")], ev[(cls, d, "r")]
                 if ec is None or er is None:
                     continue
-                pc, pr = rvc.project(ec), rvr.project(er)
+                pce, pre = rvc.project(ec, with_events=True), rvr.project(er, with_events=True)
+                pc, pr = [e for e, _ in pce], [e for e, _ in pre]
                 programs += len(rs)
                 same = pc == pr
                 mapping = {}
@@ -190,12 +197,40 @@ def run(F, chk):
                         i += 1
                     cur_e = schema.fmt(pc[i]) if i < len(pc) else "<end of block>"
                     ref_e = schema.fmt(pr[i]) if i < len(pr) else "<end of block>"
-                    owner = _owner_of(F, cls, pc[i][1] if i < len(pc) else (pr[i][1] if i < len(pr) else ""))
-                    key = "C08/R8.1:%s:%s:%s" % (owner, d, (pc[i][1] if i < len(pc) else pr[i][1]) if (i < len(pc) or i < len(pr)) else "?")
+                    # attribute the difference to the function that performs the differing transfer (one report per site,
+                    # not one per class that inherits it)
+                    # is the first difference a field missing from the current tree (present in the reference only)?
+                    import difflib
+                    ops = [o for o in difflib.SequenceMatcher(a=pr, b=pc, autojunk=False).get_opcodes() if o[0] != "equal"]
+                    missing = bool(ops) and ops[0][0] == "delete"
+                    if missing:
+                        xe, FF = pre[ops[0][1]][1], Fr
+                    else:
+                        xe = pce[i][1] if i < len(pce) else (pre[i][1] if i < len(pre) else None)
+                        FF = F if i < len(pce) else Fr
+                    inner = None
+                    if xe is not None and xe.chain:
+                        inner = FF.fns.get(xe.chain[-1][0])
+                        if inner is not None and inner.get("cls") in schema.STREAMS and len(xe.chain) > 1:
+                            inner = FF.fns.get(xe.chain[-2][0])
+                        # the frame just above the stream primitive / ref-type helper that belongs to a block class
+                        for fid, loc in reversed(xe.chain):
+                            f = FF.fns.get(fid)
+                            if f and f.get("cls") and not f["cls"].startswith(("nifly::NiStream", "nifly::NiIStream", "nifly::NiOStream")):
+                                inner = f
+                                site_loc = loc
+                                break
+                    where_name = c08_strip(inner["name"]) if inner else cls
+                    fld = (pc[i][1] if i < len(pc) else pr[i][1]) if (i < len(pc) or i < len(pr)) else "?"
+                    if missing:
+                        fld = pr[ops[0][1]][1]
+                        cur_e = "<nothing: the field is no longer transferred>"
+                        ref_e = schema.fmt(pr[ops[0][1]])
+                    key = "C08/R8.1:%s:%s:%s" % (where_name, d, fld)
                     if key in reported:
                         continue
                     reported.add(key)
-                    site = _site(F, ec, pc, i) or "?"
+                    site = "%s:%s" % (inner["file"], (site_loc or "").split(":")[0]) if inner else "?"
                     chk.violation("R8.1", key, site,
                                   "%s %s schema differs from the reference in version %08x/%d/%d (and %d more regions) at operation #%d: "
                                   "current `%s` vs reference `%s`" % (cls, d, rep[0], rep[1], rep[2], len(rs) - 1, i, cur_e, ref_e),
@@ -256,6 +291,18 @@ def run(F, chk):
         "semantics of the primitive layer (SyncHalf rounding, endianness) are compared only through R8.2",
     ]
     chk.extra["explanation"] = "translation validation of the wire schema: programs = class x version region x direction"
+
+
+def c08_strip(name):
+    out, depth = "", 0
+    for ch in name:
+        if ch == "<":
+            depth += 1
+        elif ch == ">":
+            depth -= 1
+        elif depth == 0:
+            out += ch
+    return out
 
 
 def _owner_of(F, cls, path):
